@@ -65,10 +65,17 @@ class C04(Prop):
         for n, info in res.obs.executors.items():
             if len(info["running"]) or len(info["pending"]):
                 out.append(V(self.id, "C04/bookkeeping-not-empty-at-quiescence", "running=%r pending=%r" % (list(info["running"]), list(info["pending"]))))
-        cbs = res.obs.data.get("callbacks") or []
-        seen = {}
-        for fid, mode in cbs:
-            seen[fid] = seen.get(fid, 0) + 1
+        # every done-callback ran exactly once, whatever the other callbacks of the same future did
+        import collections
+        reg = collections.Counter(map(tuple, res.obs.data.get("cb_registered") or []))
+        ran = collections.Counter(map(tuple, res.obs.data.get("callbacks") or []))
+        for key, n in reg.items():
+            rec = res.obs.futures.get(key[0])
+            if rec is None or fut_state(rec)[0] in ("pending", "running", "nofuture"):
+                continue
+            if ran.get(key, 0) != n:
+                out.append(V(self.id, "C04/done-callback-ran-%d-times" % ran.get(key, 0), "callback %r registered %d times, ran %d times" % (key, n, ran.get(key, 0))))
+                break
         return out
 
     def features(self, res):
